@@ -129,28 +129,28 @@ structure World where
 abbrev M := EStateM Exn World
 
 /-- Pop an answer, let its duration pass, log the exchange, raise if the answer is a raise. -/
-def ask (r : Req) : M Ans := fun w =>
+def ask (r : Req) : M Ans := do
+  let w ← get
   match w.answers with
-  | [] => .error .stuck w
+  | [] =>
+    -- oracle exhausted (model-only): the request is still logged, answered by `stuck`
+    set { w with trace := (r, Ans.raise .stuck 0) :: w.trace }
+    throw .stuck
   | a :: rest =>
-    let w' := { w with answers := rest, now := w.now + a.dur, trace := (r, a) :: w.trace }
+    set { w with answers := rest, now := w.now + a.dur, trace := (r, a) :: w.trace }
     match a with
-    | .raise e _ => .error e w'
-    | _ => .ok a w'
+    | .raise e _ => throw e
+    | _ => pure a
 
 /-- Record an interaction with an embedded component (no oracle answer is consumed). -/
 def logInternal (r : Req) (a : Ans) : M Unit :=
   modify fun w => { w with trace := (r, a) :: w.trace }
 
 /-- `try: x finally: fin` -/
-def withFinally (x : M α) (fin : M Unit) : M α := fun w =>
-  match x w with
-  | .ok a w' => match fin w' with
-    | .ok _ w'' => .ok a w''
-    | .error e w'' => .error e w''
-  | .error e w' => match fin w' with
-    | .ok _ w'' => .error e w''
-    | .error e' w'' => .error e' w''
+def withFinally (x : M α) (fin : M Unit) : M α := do
+  let a ← tryCatch x (fun e => do fin; throw e)
+  fin
+  pure a
 
 /-- `except Exception: pass` -/
 def swallowException (e : Exn) : M Unit :=
